@@ -1,7 +1,7 @@
 (* C03 - every committed transaction changes the row-level reading of the table by exactly the effect it computed
    at its read version; histories of commits therefore equal the serial replay of the committed effects. *)
 From LanceV Require Import Common.Base Table.Model_Txn Table.Proofs_TxnBase Table.Proofs_TxnFrame Table.Proofs_TxnChain
-  Table.Proofs_TxnDU Table.Proofs_TxnAbs.
+  Table.Proofs_TxnDU Table.Proofs_TxnAbs Table.Proofs_TxnDel.
 From Coq Require Import Permutation.
 Local Open Scope N_scope.
 
@@ -131,7 +131,6 @@ Section Main.
         match i with
         | IAppend frs => new_frags_ok frs /\ covers_nonnull (m_schema mr) frs = true
         | IDelete rows => rows_live (m_frags mr) rows
-        | IDeleteAll => True
         | IUpdateRows rows frs => rows_live (m_frags mr) rows /\ new_frags_ok frs
         | IOverwrite frs s _ => new_frags_ok frs /\ wf_schema s
         | IRestore v => exists old, nth_man h v = Some old
@@ -368,5 +367,260 @@ Section Main.
     rewrite (build_schema _ _ _ Hb). destruct o; try exact H0; try discriminate.
     - exact Hclo.
     - destruct Hg as [Hi _]. exact (covers_incl _ _ _ Hi H0).
+  Qed.
+
+  (* ---------------------------------------------------------------- Delete / Update (RewriteRows) *)
+  Lemma eff_delete : forall cur rows upd gone o' m', wf_manifest cur ->
+    du_result frows fcontent cur rows upd gone o' (fun u g => Delete u g) ->
+    build_manifest cur o' = Ok m' -> result_ok cur o' m' (EDelete rows).
+  Proof.
+    intros cur rows upd gone o' m' Hw [gone2 [files HR]] Hb. cbv zeta in HR.
+    set (upd' := patch_dels files upd) in *. set (gone' := gone ++ gone2) in *.
+    set (kept := map (replace_first upd') (filter (fun f => negb (memN (f_id f) gone')) (m_frags cur))) in *.
+    destruct HR as [Eo [Hndu [KL [KC [KN [KI [KW KG]]]]]]]. subst o'. pose proof Hw as [Hnd [Hwf [Hs Hm]]].
+    assert (Em' : m' = mk_manifest cur (m_schema cur) kept (retain_relevant_indices (m_indices cur) (m_schema cur) kept)).
+    { pose proof (build_delete cur upd' gone') as Q. cbv zeta in Q.
+      replace (map (replace_last upd') (filter (fun f => negb (memN (f_id f) gone')) (m_frags cur))) with kept in Q.
+      - rewrite Q in Hb. injection Hb as Hb. symmetry. exact Hb.
+      - unfold kept. apply map_ext. intros f. symmetry. apply replace_last_first. exact Hndu. }
+    clear Hb. subst m'.
+    assert (W : wf_manifest (mk_manifest cur (m_schema cur) kept (retain_relevant_indices (m_indices cur) (m_schema cur) kept)))
+      by (apply (mk_manifest_wf frows fcontent); assumption).
+    split; [exact W | split; [exact KG|]]. eexists. split; [reflexivity|].
+    unfold Model_Txn.table_eq. cbn [Model_Txn.abs t_schema t_maxfid t_config t_live t_cell drop_rows m_schema m_config].
+    rewrite (max_fragment_id_wf _ (wf_maxfid_of _ W)), (max_fragment_id_wf _ Hm).
+    split; [reflexivity | split; [|split; [reflexivity | split]]].
+    - rewrite mk_manifest_maxfid. apply (maxfid_sub frows); assumption.
+    - intros f o. rewrite live_at_mk by exact KN. apply KL.
+    - intros f o x Hl Hx. rewrite live_at_mk in Hl by exact KN. rewrite cell_at_mk by (try exact KN; apply Hs; exact Hx).
+      apply KC; assumption.
+  Qed.
+
+  Lemma eff_update_rows : forall cur rows upd gone nf fp o' m', wf_manifest cur -> new_frags_ok nf ->
+    du_result frows fcontent cur rows upd gone o' (fun u g => Update g u nf [] (Some RewriteRows) None fp) ->
+    build_manifest cur o' = Ok m' -> result_ok cur o' m' (EUpdateRows rows nf).
+  Proof.
+    intros cur rows upd gone nf fp o' m' Hw Hn [gone2 [files HR]] Hb. cbv zeta in HR.
+    set (upd' := patch_dels files upd) in *. set (gone' := gone ++ gone2) in *.
+    set (kept := map (replace_first upd') (filter (fun f => negb (memN (f_id f) gone')) (m_frags cur))) in *.
+    destruct HR as [Eo [Hndu [KL [KC [KN [KI [KW KG]]]]]]]. subst o'. pose proof Hw as [Hnd [Hwf [Hs Hm]]].
+    set (news := fst (assign_ids (next_of cur) nf)).
+    assert (Em' : exists idx, m' = mk_manifest cur (m_schema cur) (kept ++ news) idx).
+    { pose proof (build_update cur gone' upd' nf [] (Some RewriteRows) None fp) as Q. cbv zeta in Q. fold kept in Q. fold news in Q.
+      eexists. rewrite Q in Hb. injection Hb as Hb. symmetry. exact Hb. }
+    destruct Em' as [idx Em']. clear Hb. subst m'.
+    assert (Hnd' : NoDup (ids_of (kept ++ news))) by (apply (NoDup_cur_news frows fcontent cur kept nf Hw (proj1 Hn) KN KI)).
+    assert (Hdisj : forall i, In i (ids_of news) -> ~ In i (ids_of kept)).
+    { intros i Hi Hk. apply (fresh_disjoint frows fcontent cur nf i Hw (proj1 Hn) Hi). apply KI. exact Hk. }
+    assert (W : wf_manifest (mk_manifest cur (m_schema cur) (kept ++ news) idx)).
+    { apply (mk_manifest_wf frows fcontent); [exact Hnd' | | exact Hs]. intros f Hf. apply in_app_or in Hf as [Hf | Hf];
+        [exact (KW f Hf) | exact (assigned_wf frows nf _ f Hn Hf)]. }
+    split; [exact W | split; [exact KG|]]. eexists. split; [reflexivity|].
+    unfold Model_Txn.table_eq, add_frags.
+    cbn [Model_Txn.abs t_schema t_maxfid t_config t_live t_cell drop_rows m_schema m_config].
+    change (next_id (abs cur)) with (next_of cur). fold news.
+    rewrite (max_fragment_id_wf _ (wf_maxfid_of _ W)).
+    split; [reflexivity | split; [|split; [reflexivity | split]]].
+    - rewrite mk_manifest_maxfid. apply (maxfid_kept_news frows cur kept news Hw KI).
+    - intros f o. rewrite live_at_mk by exact Hnd'. unfold Model_Txn.live_at at 1. rewrite (find_kept_news _ _ f Hdisj).
+      destruct (find_frag f news) as [fr|]; [reflexivity|]. fold (live_at kept f o). apply KL.
+    - intros f o x Hl Hx. rewrite live_at_mk in Hl by exact Hnd'. rewrite cell_at_mk by (try exact Hnd'; apply Hs; exact Hx).
+      unfold Model_Txn.live_at in Hl. unfold Model_Txn.cell_at at 1. rewrite (find_kept_news _ _ f Hdisj) in *.
+      destruct (find_frag f news) as [fr|]; [reflexivity|]. fold (cell_at kept f o x). apply KC; assumption.
+  Qed.
+
+
+  (* ---------------------------------------------------------------- one writer *)
+  Lemma try_new_op : forall frs o aff, rb_op (try_new frs o aff) = o.
+  Proof. intros frs o aff. destruct o; try reflexivity; cbn [try_new]; destruct upd; destruct aff; reflexivity. Qed.
+
+  Definition step_post (h h' : history) (oe : option effect) : Prop :=
+    HistOk h' /\ match oe with
+                 | None => h' = h
+                 | Some e => exists cur new t', latest h = Some cur /\ latest h' = Some new
+                                                /\ apply_effect e (abs cur) = Some t' /\ table_eq (abs new) t'
+                 end.
+
+  Lemma commit_build_post : forall h cur o' m' e, HistOk h -> latest h = Some cur -> gen_op o' ->
+    result_ok cur o' m' e -> build_manifest cur o' = Ok m' ->
+    step_post h (h ++ [{| v_man := m'; v_op := o' |}]) (Some e).
+  Proof.
+    intros h cur o' m' e Hh Hl Hg [W [G [t' [A T]]]] Hb. split.
+    - apply (HistOk_snoc h cur); [exact Hh | exact Hl | exact W | apply step_build; assumption].
+    - exists cur, m', t'. split; [exact Hl | split; [apply latest_snoc | auto]].
+  Qed.
+
+  Lemma run_step_ok : forall h st h' oe, HistOk h -> valid_intent h (s_rv st) (s_int st) -> step_in_F14 frows h st = false ->
+    run_step h st = (h', oe) -> step_post h h' oe.
+  Proof.
+    intros h [rv i nd] h' oe Hh Hv HF Hrun. unfold Model_Txn.run_step in Hrun. cbn [s_rv s_int s_newdel] in *.
+    unfold step_in_F14 in HF. cbn [s_rv s_int s_newdel] in HF.
+    destruct (mk h rv i nd) as [[[o aff] e]|] eqn:Emk; [|inversion Hrun; subst; split; [exact Hh | reflexivity]].
+    destruct (commit h rv o aff nd) as [h1 | v |] eqn:Ec; try (inversion Hrun; subst; split; [exact Hh | reflexivity]).
+    inversion Hrun; subst h1 oe; clear Hrun.
+    destruct (commit_inv _ _ _ _ _ _ Ec) as [mr [cur [rb' [o' [m' [Hr [Hl [Hall [Hfin [Eh Hres]]]]]]]]]]. subst h'.
+    assert (Hwr : wf_manifest mr) by (eapply hist_wf; eassumption). assert (Hwc : wf_manifest cur) by (eapply hist_wf; eassumption).
+    pose proof (check_all_op _ _ _ _ Hall) as Eop.
+    unfold valid_intent in Hv. rewrite Hr in Hv. unfold Model_Txn.mk in Emk. rewrite Hr in Emk.
+    destruct i; try contradiction; cbn beta iota in Emk.
+    - (* IAppend *)
+      inversion Emk; subst o aff e; clear Emk. destruct Hv as [Hn Hcov].
+      rewrite try_new_op in Eop. unfold Model_Txn.finish in Hfin. rewrite Eop in Hfin. inversion Hfin; subst o'; clear Hfin.
+      destruct Hres as [[v [old [Q _]]] | [_ Hb]]; [discriminate|].
+      eapply commit_build_post; [exact Hh | exact Hl | exact I | | exact Hb]. apply eff_append; [exact Hwc | exact Hn | | exact Hb].
+      apply (chain_append_schema mr (ops_since h rv) cur frs (hist_chain frows fcontent _ _ _ _ Hh Hr Hl)); [| |exact Hcov].
+      + intros ox Hox. destruct (check_all_in _ _ _ Hall ox Hox) as [rb1 [rb2 [C1 C2]]]. rewrite try_new_op in C2.
+        unfold check_txn in C1. rewrite C2 in C1. inversion C1. reflexivity.
+      + intros ox Hox. destruct ox; try exact I. cbn [Known_C03_append_over_concurrent_merge_nonnull] in HF.
+        destruct (covers_nonnull sch frs) eqn:Ecv; [reflexivity|]. exfalso.
+        assert (Q : existsb (fun other => match other with Merge _ s => negb (covers_nonnull s frs) | _ => false end) (ops_since h rv) = true).
+        { apply existsb_exists. exists (Merge frs0 sch). split; [exact Hox | rewrite Ecv; reflexivity]. }
+        congruence.
+    - (* IDelete *)
+      destruct (mk_deletions frows (m_frags mr) rows nd) as [upd gone] eqn:Emd. inversion Emk; subst o aff e; clear Emk.
+      rewrite try_new_op in Eop. unfold Model_Txn.finish in Hfin. rewrite Eop in Hfin.
+      pose proof (du_core frows fcontent h rv mr cur rows nd nd upd gone (Delete upd gone) rb' o' (fun u g => Delete u g)
+                    Hh Hr Hl Hv Emd (or_introl (conj eq_refl eq_refl)) Hall Hfin) as DR.
+      assert (Eo' : exists u g, o' = Delete u g) by (destruct DR as [g2 [fl [E _]]]; eauto).
+      destruct Eo' as [u [g Eo']].
+      destruct Hres as [[v [old [Q _]]] | [_ Hb]]; [subst o'; discriminate|].
+      eapply commit_build_post; [exact Hh | exact Hl | subst o'; exact I | | exact Hb].
+      apply (eff_delete cur rows upd gone o' m' Hwc DR Hb).
+    - (* IUpdateRows *)
+      destruct (mk_deletions frows (m_frags mr) rows nd) as [upd gone] eqn:Emd. inversion Emk; subst o aff e; clear Emk.
+      destruct Hv as [Hv Hn].
+      rewrite try_new_op in Eop. unfold Model_Txn.finish in Hfin. rewrite Eop in Hfin.
+      pose proof (du_core frows fcontent h rv mr cur rows nd nd upd gone _ rb' o'
+                    (fun u g => Update g u frs [] (Some RewriteRows) None (schema_ids (m_schema mr)))
+                    Hh Hr Hl Hv Emd (or_intror (ex_intro _ frs (ex_intro _ [] (ex_intro _ (Some RewriteRows) (ex_intro _ None
+                       (ex_intro _ (schema_ids (m_schema mr)) (conj eq_refl eq_refl))))))) Hall Hfin) as DR.
+      assert (Eo' : exists u g, o' = Update g u frs [] (Some RewriteRows) None (schema_ids (m_schema mr))) by (destruct DR as [g2 [fl [E _]]]; eauto).
+      destruct Eo' as [u [g Eo']].
+      destruct Hres as [[v [old [Q _]]] | [_ Hb]]; [subst o'; discriminate|].
+      eapply commit_build_post; [exact Hh | exact Hl | subst o'; exact I | | exact Hb].
+      apply (eff_update_rows cur rows upd gone frs _ o' m' Hwc Hn DR Hb).
+    - (* IOverwrite *)
+      inversion Emk; subst o aff e; clear Emk. destruct Hv as [Hn Hs].
+      rewrite try_new_op in Eop. unfold Model_Txn.finish in Hfin. rewrite Eop in Hfin. inversion Hfin; subst o'; clear Hfin.
+      destruct Hres as [[v [old [Q _]]] | [_ Hb]]; [discriminate|].
+      eapply commit_build_post; [exact Hh | exact Hl | exact I | | exact Hb]. apply eff_overwrite; assumption.
+    - (* IRestore *)
+      inversion Emk; subst o aff e; clear Emk. destruct Hv as [old0 Hold0].
+      rewrite try_new_op in Eop. unfold Model_Txn.finish in Hfin. rewrite Eop in Hfin. inversion Hfin; subst o'; clear Hfin.
+      destruct Hres as [[v0 [old [Q [Hold Em']]]] | [Hno _]]; [|exfalso; exact (Hno v eq_refl)].
+      inversion Q; subst v0. rewrite Hold. subst m'.
+      assert (Hwo : wf_manifest old) by (eapply hist_wf; eassumption).
+      destruct (eff_restore cur old v Hwc Hwo) as [W [S [t' [A T]]]]. split.
+      + apply (HistOk_snoc h cur); [exact Hh | exact Hl | exact W | exact S].
+      + exists cur, (restore_manifest cur old), t'. split; [exact Hl | split; [apply latest_snoc | auto]].
+    - (* IReserve *)
+      inversion Emk; subst o aff e; clear Emk.
+      rewrite try_new_op in Eop. unfold Model_Txn.finish in Hfin. rewrite Eop in Hfin. inversion Hfin; subst o'; clear Hfin.
+      destruct Hres as [[v [old [Q _]]] | [_ Hb]]; [discriminate|].
+      eapply commit_build_post; [exact Hh | exact Hl | exact I | | exact Hb]. apply eff_reserve; assumption.
+    - (* IConfig *)
+      inversion Emk; subst o aff e; clear Emk.
+      rewrite try_new_op in Eop. unfold Model_Txn.finish in Hfin. rewrite Eop in Hfin. inversion Hfin; subst o'; clear Hfin.
+      destruct Hres as [[v [old [Q _]]] | [_ Hb]]; [discriminate|].
+      eapply commit_build_post; [exact Hh | exact Hl | exact I | | exact Hb]. apply eff_config; assumption.
+    - (* ICreateIndex *)
+      inversion Emk; subst o aff e; clear Emk.
+      rewrite try_new_op in Eop. unfold Model_Txn.finish in Hfin. rewrite Eop in Hfin. inversion Hfin; subst o'; clear Hfin.
+      destruct Hres as [[v [old [Q _]]] | [_ Hb]]; [discriminate|].
+      eapply commit_build_post; [exact Hh | exact Hl | exact I | | exact Hb]. apply eff_index; assumption.
+  Qed.
+
+
+  (* ---------------------------------------------------------------- effects respect the equality of tables *)
+  Lemma drop_rows_congr : forall a b d, table_eq a b -> table_eq (drop_rows a d) (drop_rows b d).
+  Proof.
+    intros a b d [H1 [H2 [H3 [H4 H5]]]]. unfold Model_Txn.table_eq, drop_rows. cbn [t_schema t_maxfid t_config t_live t_cell].
+    split; [exact H1 | split; [exact H2 | split; [exact H3 | split]]].
+    - intros f o. rewrite H4. reflexivity.
+    - intros f o x Hl Hx. apply andb_true_iff in Hl as [Hl _]. apply H5; assumption.
+  Qed.
+  Lemma add_frags_congr : forall a b news, table_eq a b -> table_eq (add_frags frows fcontent a news) (add_frags frows fcontent b news).
+  Proof.
+    intros a b news [H1 [H2 [H3 [H4 H5]]]]. unfold Model_Txn.table_eq, add_frags. cbn [t_schema t_maxfid t_config t_live t_cell].
+    split; [exact H1 | split; [rewrite H2; reflexivity | split; [exact H3 | split]]].
+    - intros f o. destruct (find_frag f news); [reflexivity | apply H4].
+    - intros f o x Hl Hx. destruct (find_frag f news); [reflexivity | apply H5; assumption].
+  Qed.
+
+  Definition eff_supported (e : effect) : Prop :=
+    match e with
+    | EAppend _ | EDelete _ | EUpdateRows _ _ | EOverwrite _ _ _ | ERestore _ | EReserve _ | EConfig _ | ENone => True
+    | _ => False
+    end.
+
+  Lemma apply_effect_congr : forall e a b a', eff_supported e -> table_eq a b -> apply_effect e a = Some a' ->
+    exists b', apply_effect e b = Some b' /\ table_eq a' b'.
+  Proof.
+    intros e a b a' Hs Hab Ha. pose proof Hab as [H1 [H2 [H3 [H4 H5]]]].
+    destruct e; try contradiction; cbn [Model_Txn.apply_effect] in *.
+    - (* EAppend *) rewrite <- H1. destruct (covers_nonnull (t_schema a) frs); [|discriminate]. inversion Ha; subst.
+      eexists. split; [reflexivity|]. unfold next_id. rewrite <- H2. apply add_frags_congr. exact Hab.
+    - (* EDelete *) inversion Ha; subst. eexists. split; [reflexivity|]. apply drop_rows_congr. exact Hab.
+    - (* EUpdateRows *) inversion Ha; subst. eexists. split; [reflexivity|]. unfold next_id. rewrite <- H2.
+      apply add_frags_congr. apply drop_rows_congr. exact Hab.
+    - (* EOverwrite *) inversion Ha; subst. eexists. split; [reflexivity|].
+      unfold Model_Txn.table_eq. cbn [t_schema t_maxfid t_config t_live t_cell]. rewrite H2, H3. repeat split; reflexivity.
+    - (* ERestore *) inversion Ha; subst. eexists. split; [reflexivity|].
+      unfold Model_Txn.table_eq. cbn [t_schema t_maxfid t_config t_live t_cell]. rewrite H2. repeat split; reflexivity.
+    - (* EReserve *) inversion Ha; subst. eexists. split; [reflexivity|].
+      unfold Model_Txn.table_eq. cbn [t_schema t_maxfid t_config t_live t_cell]. rewrite H2.
+      split; [exact H1 | split; [reflexivity | split; [exact H3 | split; [exact H4 | exact H5]]]].
+    - (* EConfig *) inversion Ha; subst. eexists. split; [reflexivity|].
+      unfold Model_Txn.table_eq. cbn [t_schema t_maxfid t_config t_live t_cell]. rewrite H3.
+      split; [exact H1 | split; [exact H2 | split; [reflexivity | split; [exact H4 | exact H5]]]].
+    - (* ENone *) inversion Ha; subst. exists b. split; [reflexivity | exact Hab].
+  Qed.
+
+  Lemma mk_eff_supported : forall h rv i nd o aff e, valid_intent h rv i -> mk h rv i nd = Some (o, aff, e) -> eff_supported e.
+  Proof.
+    intros h rv i nd o aff e Hv Hm. unfold valid_intent in Hv. unfold Model_Txn.mk in Hm.
+    destruct (nth_man h rv) as [mr|]; [|contradiction].
+    destruct i; try contradiction; cbn beta iota in Hm;
+      try (destruct (mk_deletions frows (m_frags mr) rows nd)); inversion Hm; subst; try exact I.
+    destruct (nth_man h v); exact I.
+  Qed.
+
+  (* ---------------------------------------------------------------- histories *)
+  Fixpoint valid_run (h : history) (sts : list step) : Prop :=
+    match sts with
+    | [] => True
+    | st :: r => valid_intent h (s_rv st) (s_int st) /\ step_in_F14 frows h st = false /\ valid_run (fst (run_step h st)) r
+    end.
+
+  Lemma run_replay : forall sts h cur t h2 log, HistOk h -> latest h = Some cur -> table_eq (abs cur) t -> valid_run h sts ->
+    run h sts = (h2, log) ->
+    HistOk h2 /\ exists new t2, latest h2 = Some new /\ replay t log = Some t2 /\ table_eq (abs new) t2.
+  Proof.
+    induction sts as [|st r IH]; intros h cur t h2 log Hh Hl Ht Hv Hrun; cbn [Model_Txn.run] in Hrun.
+    - inversion Hrun; subst. split; [exact Hh|]. exists cur, t. split; [exact Hl | split; [reflexivity | exact Ht]].
+    - destruct Hv as [Hv [HF Hvr]]. destruct (run_step h st) as [h1 oe] eqn:Es. cbn [fst] in Hvr.
+      destruct (run h1 r) as [h2' log'] eqn:Er. inversion Hrun; subst h2' log; clear Hrun.
+      destruct (run_step_ok h st h1 oe Hh Hv HF Es) as [Hh1 Hpost]. destruct oe as [e|].
+      + destruct Hpost as [cur' [new [t' [Hl' [Hn [Ha Hte]]]]]]. rewrite Hl in Hl'. inversion Hl'; subst cur'.
+        assert (Hsup : eff_supported e).
+        { unfold Model_Txn.run_step in Es. destruct (mk h (s_rv st) (s_int st) (s_newdel st)) as [[[o aff] e0]|] eqn:Em; [|inversion Es].
+          destruct (Model_Txn.commit frows h (s_rv st) o aff (s_newdel st)); inversion Es; subst. exact (mk_eff_supported _ _ _ _ _ _ _ Hv Em). }
+        destruct (apply_effect_congr e (abs cur) t t' Hsup Ht Ha) as [t1 [Ha1 Ht1]].
+        destruct (IH h1 new t1 h2 log' Hh1 Hn (table_eq_trans _ _ _ Hte Ht1) Hvr Er) as [Hh2 [new2 [t2 [A [B C]]]]].
+        split; [exact Hh2|]. exists new2, t2. split; [exact A | split; [|exact C]]. cbn [Model_Txn.replay]. rewrite Ha1. exact B.
+      + subst h1. exact (IH h cur t h2 log' Hh Hl Ht Hvr Er).
+  Qed.
+
+  (* C03: any schedule of writers over a well-formed initial table *)
+  Theorem serializable : forall m0 o0 sts h log,
+    wf_manifest m0 -> valid_run [{| v_man := m0; v_op := o0 |}] sts ->
+    run [{| v_man := m0; v_op := o0 |}] sts = (h, log) ->
+    exists final t, latest h = Some final /\ replay (abs m0) log = Some t /\ table_eq (abs final) t.
+  Proof.
+    intros m0 o0 sts h log Hw Hv Hrun.
+    assert (Hh : HistOk [{| v_man := m0; v_op := o0 |}]).
+    { split; [intros e [E | []]; subst; exact Hw | exact I]. }
+    destruct (run_replay sts _ m0 (abs m0) h log Hh eq_refl (table_eq_refl _) Hv Hrun) as [_ [new [t [A [B C]]]]].
+    exists new, t. auto.
   Qed.
 End Main.
